@@ -11,7 +11,7 @@ from props.group_lib import (E_CFAIL, E_FIRE, E_HBREPLY, E_JOIN, E_LEAVE, E_LOOK
 
 MODEL = "group"
 MODULE = "Model.GroupObs"
-TIED = ["C17_never_idle", "C17_stable_means_heartbeating", "C17_rejoin_timer_real", "C17_retriable_rejoins", "C17_timer_starts_join",
+TIED = ["C17_never_idle", "C17_never_idle_flag", "C17_stable_means_heartbeating", "C17_rejoin_timer_real", "C17_retriable_rejoins", "C17_timer_starts_join",
         "C17_lookup_failure_retried", "C17_fatal_surfaces", "C17_fatal_surfaces_after_leave"]
 
 
@@ -111,7 +111,7 @@ def run(ck):
     run_case = GL.check_histories(ck, monitor, TIED)
 
     # ---- residual finding F-C17-2: replay the witness of C17_nonkafka_idle_refuted on the real code
-    wk, wev = GL.corpus_cases()[0]
+    wk, wev, _ = GL.corpus_cases()[0]
     _, wtr, _, wsteps = run_case(wk, wev)
     o = wsteps[-1]["obs"]
     idle = o[0] == 1 and o[1] == 0 and o[2] == 0 and o[3] == 0 and o[5] == 0
